@@ -1034,7 +1034,13 @@ fn injections(t: &Tpl, mut f: impl FnMut(Defect, String) -> bool) {
         // missing src / module / is
         let del = |name: &str| el.attrs.iter().find(|a| a.name == name).map(|a| splice(s, a.start..a.end, ""));
         match el.kind {
-            EK::Include | EK::Import => if let Some(x) = del("src") { emit!(Defect::NoSrc, x); },
+            EK::Include | EK::Import => {
+                if let Some(x) = del("src") { emit!(Defect::NoSrc, x); }
+                // the attribute is there but names no file: still a missing source path
+                if let Some(a) = el.attrs.iter().find(|a| a.name == "src") {
+                    for empty in ["src=\"\"", "src=''", "src"] { emit!(Defect::NoSrc, splice(s, a.start..a.end, empty)); }
+                }
+            }
             EK::WxsInline | EK::WxsSrc => if let Some(x) = del("module") { emit!(Defect::NoModule, x); },
             EK::TplIs => if let Some(x) = del("is") { emit!(Defect::NoIs, x); },
             EK::TplDef => if let Some(x) = del("name") { emit!(Defect::NoIs, x); },
